@@ -83,6 +83,7 @@ type Explorer struct {
 	HostStringHook func(in *Interp, s string) Value
 	InterpretPkgs  []string // extra package path prefixes allowed for interpretation
 	EnvMax int
+	Skeletons map[string]string
 	FallbackQueries, FallbackDecided int
 	TightenAbove int
 	Forks map[string]int
@@ -334,6 +335,7 @@ func (in *Interp) beginPath(trace []int) {
 	in.panicFrames = nil
 	in.astBack = nil
 	in.astFwd = nil
+	in.l1 = nil
 	in.reached = nil
 	in.byteAssumed = map[int]bool{}
 	in.Sol.ClearErr()
